@@ -6,6 +6,8 @@
 (*   res  = [k, v]  what compute_time_step returned,                       *)
 (*   sres = [k, v]  what _compute_timestep returned,                       *)
 (*   msg            text of an exception, if any.                          *)
+(* A line with a field `asks` is a history recorded from ONE set of objects *)
+(* driven through the real Solver.solve() (see TimeStep.tla, HISTORIES).    *)
 (* For every trace the property layer of TimeStep.tla is evaluated on the  *)
 (* recorded results (Verdict: failed clauses; whether the failure is       *)
 (* explained by findings of status "known" and by which) and, for drift    *)
@@ -33,7 +35,14 @@ TVerdict(x) ==
     IN [v |-> Verdict(x, r, s, KnownOf(x)),
         mech |-> SameV(r, m) /\ SameV(s, M_Solver(x, m))]
 
-TInit == tid \in 1 .. Len(Traces) /\ TLCSet(tid, TVerdict(Traces[tid]))
+\* a history (a line with `asks`): every ask is judged against the CURRENT
+\* arrays (memoryless statement) and the solver-level clauses; `step` is the
+\* first failing ask (0: none)
+THistory(x) == [v |-> HVerdict(x), mech |-> HMechSame(x)]
+
+TAny(x) == IF "asks" \in DOMAIN x THEN THistory(x) ELSE TVerdict(x)
+
+TInit == tid \in 1 .. Len(Traces) /\ TLCSet(tid, TAny(Traces[tid]))
 TNext == FALSE /\ tid' = tid
 
 Report ==
